@@ -155,7 +155,7 @@ CHECKS = {
         "supply PDSxxxx KEYS are covered end to end by C01_roundtrip_pds (every sub-element comes back with its value, "
         "wherever carrier boundaries fall; carrier hypotheses discharged for the packaged configuration by decide). Tied "
         "to /repo by differential execution over every single "
-        "bit, every pair, boundary/every length, 6 codecs x 2 bitmap forms, packaged + generated configurations. In addition a SOURCE TIE for the bitmap conversion: harness/pytrans.py translates the current Python text of BitArray.tolist / fromlist (which go through one big integer) into Lean (Gen/Src.lean) on every run and lean/Cardutil/SrcTie/Bits.lean proves, for all inputs, that the translation equals the byte-by-byte model (tolist_eq, fromlist_eq) and restates the bitmap clause for the translated code (C01_source_bits_roundtrip, C02_source_bitmap, C02_source_bitmap_read); when the source changes so that this no longer checks, the check runs its thorough generators (time-boxed) before answering (the correspondence remains the deciding tie).",
+        "bit, every pair, boundary/every length, 6 codecs x 2 bitmap forms, packaged + generated configurations. In addition a SOURCE TIE for the bitmap conversion: harness/pytrans.py translates the current Python text of BitArray.tolist / fromlist (which go through one big integer) into Lean (Gen/Src.lean) on every run and lean/Cardutil/SrcTie/Bits.lean proves, for all inputs, that the translation equals the byte-by-byte model (tolist_eq, fromlist_eq) and restates the bitmap clause for the translated code (C01_source_bits_roundtrip, C02_source_bitmap, C02_source_bitmap_read); the public entry points dumps / loads are translated (optional arguments: None or an empty value is the default encoding / the packaged table; the workers external) and lean/Cardutil/SrcTie/Entry.lean proves dumps_eq / loads_eq, C02_source_defaults, C02_source_empty_config_is_packaged and C01_source_entry_roundtrip (both entry points resolve their arguments alike); when the source changes so that this no longer checks, the check runs its thorough generators (time-boxed) before answering (the correspondence remains the deciding tie).",
         "Trusted: Lean kernel; standard axioms; hand-written model; strptime(strftime d)=d, a hypothesis of WFField.date, is PROVED for the "
         "Lean model of strptime (Lemmas/Time.lean strptime_strftime, C01_date_wellformed) for every date-time expressible in the format; the model of strptime itself is validated differentially; DE43 keys applied by Python's re in the harness.",
         "DESIGN.md §8 C01"),
@@ -167,7 +167,7 @@ CHECKS = {
         "++ elements with bit 1 set and bit n set iff element n is emitted; the hex form is 32 lowercase hex characters; "
         "a variable value with 10^w or more characters is refused with the library error (Props/C02.lean). Tied to /repo by "
         "comparison with an independent reference encoder/decoder on the C01 streams plus short fixed values and over-long "
-        "values on every variable element. In addition a SOURCE TIE for the bitmap conversion: harness/pytrans.py translates the current Python text of BitArray.tolist / fromlist (which go through one big integer) into Lean (Gen/Src.lean) on every run and lean/Cardutil/SrcTie/Bits.lean proves, for all inputs, that the translation equals the byte-by-byte model (tolist_eq, fromlist_eq) and restates the bitmap clause for the translated code (C01_source_bits_roundtrip, C02_source_bitmap, C02_source_bitmap_read); likewise iso8583._get_field_length and _field_to_iso8583 (the element layout; `_pytype_to_string` and the text encoder are parameters of the translated function) are translated and lean/Cardutil/SrcTie/Field.lean proves field_to_iso_eq and restates C02(a) and C02(c) for the translated code (C02_source_element_layout, C02_source_refuses_overlong); the element loop and assembly of _dict_to_iso8583 are translated with the element encoder as a parameter and lean/Cardutil/SrcTie/EncLoop.lean proves C02_source_loop_layout (MTI, bitmap with bit 1 and bit n iff element n present, present elements ascending); _pytype_to_string (the typed conversion: int / Decimal / datetime to text) is translated and lean/Cardutil/SrcTie/Conv.lean proves pytype_to_string_eq (= the model's pyTypeToString) and C02_source_int_rendering / C02_source_date_rendering; when the source changes so that this no longer checks, the check runs its thorough generators (time-boxed) before answering (the correspondence remains the deciding tie).",
+        "values on every variable element. In addition a SOURCE TIE for the bitmap conversion: harness/pytrans.py translates the current Python text of BitArray.tolist / fromlist (which go through one big integer) into Lean (Gen/Src.lean) on every run and lean/Cardutil/SrcTie/Bits.lean proves, for all inputs, that the translation equals the byte-by-byte model (tolist_eq, fromlist_eq) and restates the bitmap clause for the translated code (C01_source_bits_roundtrip, C02_source_bitmap, C02_source_bitmap_read); the public entry points dumps / loads are translated (optional arguments: None or an empty value is the default encoding / the packaged table; the workers external) and lean/Cardutil/SrcTie/Entry.lean proves dumps_eq / loads_eq, C02_source_defaults, C02_source_empty_config_is_packaged and C01_source_entry_roundtrip (both entry points resolve their arguments alike); likewise iso8583._get_field_length and _field_to_iso8583 (the element layout; `_pytype_to_string` and the text encoder are parameters of the translated function) are translated and lean/Cardutil/SrcTie/Field.lean proves field_to_iso_eq and restates C02(a) and C02(c) for the translated code (C02_source_element_layout, C02_source_refuses_overlong); the element loop and assembly of _dict_to_iso8583 are translated with the element encoder as a parameter and lean/Cardutil/SrcTie/EncLoop.lean proves C02_source_loop_layout (MTI, bitmap with bit 1 and bit n iff element n present, present elements ascending); _pytype_to_string (the typed conversion: int / Decimal / datetime to text) is translated and lean/Cardutil/SrcTie/Conv.lean proves pytype_to_string_eq (= the model's pyTypeToString) and C02_source_int_rendering / C02_source_date_rendering; when the source changes so that this no longer checks, the check runs its thorough generators (time-boxed) before answering (the correspondence remains the deciding tie).",
         "Trusted: as C01; harness/isoutil.py ref_encode/ref_decode written from the documentation.",
         "DESIGN.md §8 C02"),
     'C08': (
